@@ -116,7 +116,8 @@ func (s *Sim) PutViews(b, c int, defs []ViewDef) error {
 	if s.views == nil {
 		s.views = map[[2]int]*viewState{}
 	}
-	err := s.coll(b, 0, c).PutDDoc(context.Background(), DDocName, ddocOf(defs))
+	s.viewN++
+	err := s.coll(b, s.viewN%len(s.Env.Buckets[b].Handles), c).PutDDoc(context.Background(), DDocName, ddocOf(defs))
 	if err != nil {
 		return err
 	}
@@ -343,7 +344,8 @@ func (s *Sim) viewShapes(rows []sortRow, def ViewDef) []ViewQ {
 }
 
 func (s *Sim) runView(b, c int, ddoc, view string, params map[string]any, useIter bool) ([]VRow, error) {
-	col := s.coll(b, 0, c)
+	s.viewN++
+	col := s.coll(b, s.viewN%len(s.Env.Buckets[b].Handles), c) // design documents and queries go through every handle in turn
 	var res sgbucket.ViewResult
 	var err error
 	func() {
